@@ -28,8 +28,8 @@ rows (`row_testBit`), `homo` (`homoA_eq`), `rankF2` (`Props/KhSnf.rankF2_correct
 `khiGensOk` IS NOT AN EXTRA ASSUMPTION: `kgens_enumeration` (the enumeration is sound, complete and duplicate-free, for every
 cube) gives (a), (b); `khi_closure_of_instanceOk` gives (c) for every instance passing `khiInstanceOk`; so
 `khi_homology_graded_of_instanceOk` states everything under `khiInstanceOk l p` ALONE.
-NOT covered: the bigraded branch (`bigraded = true`: the `q`-splitting, `Array.qsort` of the `q`-degrees) — it is only named
-(`khiTail2`), not analysed; the signs `signs` are an input (`h0 = −#negative signs`).
+The bigraded branch (`bigraded = true`, `h = t = 0`: the `q`-splitting, `Array.qsort` of the `q`-degrees) is the subject of
+`Props/KhiSpecQ.lean` (`khi_homology_bigraded_of_instanceOk`).  The signs `signs` are an input (`h0 = −#negative signs`).
 -/
 namespace Yuiv.KhiSpec
 open Yuiv Yuiv.KhRef Yuiv.C19 Yuiv.C06Cycle Yuiv.C19Inv Yuiv.C19Comm Yuiv.C19Cone Matrix
